@@ -624,13 +624,28 @@ func (in *Interp) join(cond string, a, b *State) *State {
 		n.bufs[id] = j
 		n.vars[p.k] = BufV{ID: id, Off: Const(0)}
 	}
-	// facts: those present on both arms
-	for _, f := range a.facts {
-		for _, g := range b.facts {
+	// facts: those present on both arms stay; those of one arm become conditional
+	// on the branch (used by the prover's case split on ite(cond ? … : …) values)
+	inList := func(f Fact, l []Fact) bool {
+		for _, g := range l {
 			if f.equal(g) {
-				n.facts = append(n.facts, f)
-				break
+				return true
 			}
+		}
+		return false
+	}
+	for _, f := range a.facts {
+		if inList(f, b.facts) {
+			n.facts = append(n.facts, f)
+		} else if f.Cond == "" && cond != "" {
+			f.Cond = cond
+			n.facts = append(n.facts, f)
+		}
+	}
+	for _, g := range b.facts {
+		if !inList(g, a.facts) && g.Cond == "" && cond != "" {
+			g.Cond = negCond(cond)
+			n.facts = append(n.facts, g)
 		}
 	}
 	return n
